@@ -82,6 +82,9 @@ def tasks(tier, seed):
             out[-1]["key"] += "/episode2"
     # one configuration with additional initially-known coalitions
     add(4, [3], 12, "superadditive_cached", "exploitability", "none", "direct", extra_init=[5, 10])
+    # the collection of initially known coalitions may list a coalition twice (and the minimal ones again); with a step budget
+    add(4, [3], 12, "superadditive_cached", "exploitability", "sym", "direct", extra_init=[5, 10, 5, 1, 15])
+    add(3, [], 3, "superadditive", "l1_norm", "sym", "direct", extra_init=[5, 5])
     # seven players: 119 explorable coalitions (more than one machine word of action indices / bit positions)
     if tier == "thorough":
         add(7, [], 126, "superadditive_cached", "l1_norm", "none", "direct")
